@@ -31,8 +31,9 @@ Proof.
 Qed.
 
 Section UnionMember.
+Variable anyb : bool.
 Variable sub : cls -> cls -> bool.
-Notation mem := (member sub).
+Notation mem := (member anyb sub).
 
 Lemma dedup_keeps_members v : forall ts seen,
   Forall wf_ty ts -> Forall wf_ty seen ->
@@ -69,7 +70,7 @@ Lemma union_mk_complete v ts :
   Forall wf_ty ts -> existsb (mem v) ts = true -> mem v (union_mk ts) = true.
 Proof.
   intros W H. rewrite member_union_mk_raw.
-  rewrite <- (existsb_flatten sub) in H.
+  rewrite <- (existsb_flatten anyb sub) in H.
   destruct (dedup_keeps_members v (flatten ts) [] (flatten_wf _ W) (Forall_nil _) H) as [H'|H'];
     [exact H'|discriminate H'].
 Qed.
@@ -78,7 +79,7 @@ Qed.
 Lemma union_mk_sound v ts : mem v (union_mk ts) = true -> existsb (mem v) ts = true.
 Proof.
   rewrite member_union_mk_raw. intros H.
-  rewrite <- (existsb_flatten sub). apply existsb_exists in H. destruct H as [x [Hx Mx]].
+  rewrite <- (existsb_flatten anyb sub). apply existsb_exists in H. destruct H as [x [Hx Mx]].
   apply existsb_exists. exists x. split; [|exact Mx]. eapply dedup_incl. exact Hx.
 Qed.
 
